@@ -155,17 +155,15 @@ def check(prop: str, tier: str, seed: int) -> int:
         to_confirm = [lst[0] for sig, lst in sorted(m["violations"].items())]
         confirmed = {}
         if to_confirm and not plan.get("no_confirm"):
-            groups = collections.defaultdict(list)
-            for v in to_confirm:
-                groups[json.dumps(v.get("env") or {}, sort_keys=True)].append(v)
             jobs2 = []
-            for gi, (ek, vs) in enumerate(sorted(groups.items())):
-                e = json.loads(ek)
-                jobs2.append((f"r{gi}", {"violations": vs}, e.get("hashseed", plan.get("hashseed", 0)), e.get("env"), e.get("conf_src")))
-            reps = run_workers(prop, "replay", scratch, jobs2, 8)
-            for r in reps:
-                for rp in r["replays"]:
-                    a, b = rp["runs"]
+            for gi, v in enumerate(to_confirm):
+                e = v.get("env") or {}
+                for run in "ab":      # every replay in a process of its own, two processes per violation
+                    jobs2.append((f"r{gi}{run}", {"violations": [v], "single": True}, e.get("hashseed", plan.get("hashseed", 0)), e.get("env"), e.get("conf_src")))
+            reps = run_workers(prop, "replay", scratch, jobs2, 16)
+            for ra, rb in zip(reps[0::2], reps[1::2]):
+                for rp, rq in zip(ra["replays"], rb["replays"]):
+                    a, b = rp["runs"][0], rq["runs"][0]
                     if a != b:
                         raise HarnessError(f"replay of {rp['signature']} is not deterministic: {a} vs {b}")
                     if rp["signature"] not in a:
@@ -250,8 +248,9 @@ def replay(prop: str, path: str) -> int:
                 return EXIT_VIOLATION
             print("not reproduced by re-running the shard (property holds on this artefact)")
             return EXIT_OK
-        reps = run_workers(prop, "replay", scratch, [("r0", {"violations": [v]}, e.get("hashseed", 0), e.get("env"), e.get("conf_src"))], 1)
+        reps = run_workers(prop, "replay", scratch, [(f"r0{x}", {"violations": [v], "single": True}, e.get("hashseed", 0), e.get("env"), e.get("conf_src")) for x in "ab"], 2)
         rp = reps[0]["replays"][0]
+        rp["runs"] = [rp["runs"][0], reps[1]["replays"][0]["runs"][0]]
         print(json.dumps(rp, indent=1)[:4000])
         if rp["runs"][0] != rp["runs"][1]:
             print("HARNESS: replay not deterministic")
